@@ -113,6 +113,9 @@ func runC05(w *World) {
 	setup := w.program("setup", func(r *rand.Rand) []Cmd {
 		fence = c05Fence(r, "hw", "fleet")
 		var p []Cmd
+		if fence.whereF == "" && r.Intn(6) == 0 {
+			fence.whereF, fence.whereLo, fence.whereHi = "z", 10, 50 // a filter on the geometry, not on a field
+		}
 		// the same area in one of its other spellings
 		if fence.area.circle {
 			if r.Intn(2) == 0 {
@@ -257,6 +260,10 @@ func runC05(w *World) {
 						}
 						r5 := func(x float64) float64 { return math.Round(x*100000) / 100000 }
 						p = append(p, Cmd{Args: append(a, "BOUNDS", fnum(r5(b[0]+u)), fnum(r5(b[1])), fnum(r5(b[2])), fnum(r5(b[3])))})
+						break
+					}
+					if fence.whereF == "z" && r.Intn(3) != 0 {
+						p = append(p, Cmd{Args: append(a, "POINT", lat, lon, []string{"5", "30", "70"}[r.Intn(3)])})
 						break
 					}
 					p = append(p, Cmd{Args: append(a, "POINT", lat, lon)})
